@@ -108,6 +108,10 @@ def candidates(tree):
                         if tnames and all(names_used.count(t) == inside.count(t) for t in tnames) and st.targets[0].id not in inside \
                                 and not any(isinstance(x, (ast.Lambda, ast.GeneratorExp, ast.ListComp)) for x in ast.walk(comp.elt)):
                             out.append(("comp-to-loop", (L, i, comp), None))
+        for n in ast.walk(fn):
+            if isinstance(n, ast.Call) and isinstance(n.func, ast.Name) and n.func.id in CLASS_FIELDS and n.args and not n.keywords \
+                    and not any(isinstance(a_, ast.Starred) for a_ in n.args) and len(n.args) <= len(CLASS_FIELDS[n.func.id]):
+                out.append(("ctor-kw", n, None))
         for i, st in enumerate(fn.body):
             if isinstance(st, (ast.Assign, ast.Return)) and isinstance(st.value, ast.Call):
                 for j, a_ in enumerate(st.value.args):
@@ -138,6 +142,12 @@ def apply(kind, node, extra, rng):
         node.test = ast.UnaryOp(op=ast.Not(), operand=node.test)
         node.body, node.orelse = node.orelse, node.body
         return f"flip if/else at line {node.lineno}"
+    if kind == "ctor-kw":
+        flds = CLASS_FIELDS[node.func.id]
+        keep = rng.randrange(0, len(node.args))  # the first `keep` arguments stay positional
+        node.keywords = [ast.keyword(arg=flds[i], value=a_) for i, a_ in enumerate(node.args) if i >= keep]
+        node.args = node.args[:keep]
+        return f"constructor {node.func.id}: arguments from position {keep} on passed by keyword (line {node.lineno})"
     if kind == "guard-clause":
         L, i = node
         st = L[i]
@@ -183,6 +193,16 @@ def apply(kind, node, extra, rng):
         return f"return through a temporary in {fn.name}"
 
 KINDS: set = set()
+
+
+def _class_fields():
+    sys.path.insert(0, HERE)
+    from sa.program import Program
+    prog = Program()
+    return {name: cis[0].fields for name, cis in prog.class_index.items() if len(cis) == 1 and cis[0].fields}
+
+
+CLASS_FIELDS = _class_fields()
 
 
 def one(job):
